@@ -125,21 +125,25 @@ def expandedBitDepthTo8 (i : Img) : Option Img :=
 
 /-! ## colour type (color.rs) -/
 
+/-- one pixel of `bd`-byte samples has r = g = b -/
+def isGrayPx (bd : Nat) (p : Bytes) : Bool :=
+  if bd = 1 then p.getD 0 0 = p.getD 1 0 ∧ p.getD 1 0 = p.getD 2 0
+  else (p.take 2 = (p.drop 2).take 2) ∧ ((p.drop 2).take 2 = (p.drop 4).take 2)
+
+/-- colour type after RGB(A) → gray(+alpha): the key is carried over when it is gray itself -/
+def grayCtOf : ColorType → ColorType
+  | .rgb t => .gray (match t with
+                     | some (r, g, b) => if r = g ∧ g = b then some r else none
+                     | none => none)
+  | _ => .grayAlpha
+
 def reducedRgbToGrayscale (i : Img) : Option Img :=
   if !i.ihdr.ct.isRgb then none else
   let bd := i.bytesPerChannel
   let bpp := i.channelsPerPixel * bd
   let pxs := chunksExact bpp i.data
-  let isGrayPx (p : Bytes) : Bool :=
-    if bd = 1 then p.getD 0 0 = p.getD 1 0 ∧ p.getD 1 0 = p.getD 2 0
-    else (p.take 2 = (p.drop 2).take 2) ∧ ((p.drop 2).take 2 = (p.drop 4).take 2)
-  if pxs.all isGrayPx then
-    let ct := match i.ihdr.ct with
-      | .rgb t => .gray (match t with
-                         | some (r, g, b) => if r = g ∧ g = b then some r else none
-                         | none => none)
-      | _ => .grayAlpha
-    some ⟨{ i.ihdr with ct := ct }, pxs.flatMap (·.drop (2 * bd))⟩
+  if pxs.all (isGrayPx bd) then
+    some ⟨{ i.ihdr with ct := grayCtOf i.ihdr.ct }, pxs.flatMap (·.drop (2 * bd))⟩
   else none
 
 /-- `build_palette`: first-occurrence order; `none` when a 257th distinct pixel shows up -/
@@ -152,6 +156,21 @@ def buildPalette : List Bytes → List Bytes → Bytes → Option (List Bytes ×
       if pal.length = 256 then none
       else buildPalette rest (pal ++ [px]) (UInt8.ofNat pal.length :: acc)
 
+/-- the RGBA8 palette entry made from one stored 8-bit pixel (`reduced_to_indexed`, per colour type) -/
+def paletteEntry (ct : ColorType) (p : Bytes) : Rgba :=
+  match ct with
+  | .gray t =>
+    let tp : Option UInt8 := t.map UInt8.ofNat
+    let g := p.getD 0 0
+    ⟨g, g, g, if some g ≠ tp then 255 else 0⟩
+  | .rgb t =>
+    let tp : Option (UInt8 × UInt8 × UInt8) := t.map fun (r, g, b) => (UInt8.ofNat r, UInt8.ofNat g, UInt8.ofNat b)
+    let c := (p.getD 0 0, p.getD 1 0, p.getD 2 0)
+    ⟨c.1, c.2.1, c.2.2, if some c ≠ tp then 255 else 0⟩
+  | .grayAlpha => let g := p.getD 0 0; ⟨g, g, g, p.getD 1 0⟩
+  | .rgba => ⟨p.getD 0 0, p.getD 1 0, p.getD 2 0, p.getD 3 0⟩
+  | .indexed _ => ⟨0, 0, 0, 255⟩      -- not reached: indexed input is refused
+
 def reducedToIndexed (i : Img) (allowGrayscale : Bool) : Option Img :=
   if i.ihdr.depth ≠ 8 then none else
   if i.ihdr.ct.isIndexed then none else
@@ -160,19 +179,7 @@ def reducedToIndexed (i : Img) (allowGrayscale : Bool) : Option Img :=
   match buildPalette pxs [] [] with
   | none => none
   | some (pmap, raw) =>
-    let palette : List Rgba := match i.ihdr.ct with
-      | .gray t =>
-        let tp : Option UInt8 := t.map UInt8.ofNat
-        pmap.map fun p => let g := p.getD 0 0; ⟨g, g, g, if some g ≠ tp then 255 else 0⟩
-      | .rgb t =>
-        let tp : Option (UInt8 × UInt8 × UInt8) := t.map fun (r, g, b) => (UInt8.ofNat r, UInt8.ofNat g, UInt8.ofNat b)
-        pmap.map fun p =>
-          let c := (p.getD 0 0, p.getD 1 0, p.getD 2 0)
-          ⟨c.1, c.2.1, c.2.2, if some c ≠ tp then 255 else 0⟩
-      | .grayAlpha => pmap.map fun p => let g := p.getD 0 0; ⟨g, g, g, p.getD 1 0⟩
-      | .rgba => pmap.map fun p => ⟨p.getD 0 0, p.getD 1 0, p.getD 2 0, p.getD 3 0⟩
-      | .indexed p => p
-    some ⟨{ i.ihdr with ct := .indexed palette }, raw⟩
+    some ⟨{ i.ihdr with ct := .indexed (pmap.map (paletteEntry i.ihdr.ct)) }, raw⟩
 
 def indexedMaxDiff : Nat := 20000
 
